@@ -158,6 +158,13 @@ ORDER_SETS = [
 ]
 
 
+def model_split_key(key):
+    i = 0
+    while i < len(key) and key[i] in "+-<>*":
+        i += 1
+    return key[:i], key[i:]
+
+
 def split_order(key):
     i = 0
     while i < len(key) and key[i] in "+-<>*":
@@ -173,7 +180,7 @@ def order_prefix(order):
 
 @st.composite
 def link(draw, blocks, label_pool, allow_replace=True, allow_atype_sel=True, prefer=None, bonded_only=False,
-         nonbond_sections=True):
+         nonbond_sections=True, atype_replace=False):
     orders = draw(st.sampled_from(ORDER_SETS))
     nres = len(orders)
     names = [b["name"] for b in blocks if len({a["resid"] for a in b["atoms"]}) == 1]
@@ -291,7 +298,7 @@ def link(draw, blocks, label_pool, allow_replace=True, allow_atype_sel=True, pre
         tgt = order_prefix(orders[oi]) + draw(st.sampled_from([a["name"] for a in blk["atoms"]]))
         if isinstance(orders[oi], int) and tgt != src:
             non_edges.append([src, tgt, {}])
-    if allow_atype_sel and draw(st.integers(0, 6)) == 0:
+    if allow_atype_sel and not atype_replace and draw(st.integers(0, 6)) == 0:
         for _ in range(draw(st.integers(1, 2))):
             pat = []
             for key in draw(st.lists(st.sampled_from(keys_all), min_size=1, max_size=2, unique=True)):
@@ -300,8 +307,13 @@ def link(draw, blocks, label_pool, allow_replace=True, allow_atype_sel=True, pre
     if allow_replace and draw(st.integers(0, 6)) == 0:
         key = draw(st.sampled_from(keys_all))
         atoms[key] = dict(atoms[key])
-        if draw(st.integers(0, 2)) == 0:
+        kind = draw(st.integers(0, 2))
+        if kind == 0:
             atoms[key]["replace"] = {"atomname": None}       # the atom is removed
+        elif kind == 1 and atype_replace:
+            # the new type never equals a selectable type; patterns (which look at the live molecule)
+            # are not generated together with type replacement
+            atoms[key]["replace"] = {"atype": draw(st.sampled_from(["TR1", "TR2"]))}
         else:
             atoms[key]["replace"] = {"charge": draw(st.sampled_from(CHARGES))}
     return {"resname": "|".join(link_resnames),
@@ -389,7 +401,8 @@ LABELS = [("chiral", "R"), ("chiral", "S"), ("tag", "x")]
 @st.composite
 def case(draw, with_links=True, max_res=8, mixed_nrexcl=False, routes=("json", "json", "seq", "txt"),
          allow_itp=True, allow_replace=True, min_res=1, allow_dangling=True, link_bias=False,
-         bonded_only=False, f22_safe=False, min_blocks=1, name_modes=("homo", "block", "random")):
+         bonded_only=False, f22_safe=False, min_blocks=1, name_modes=("homo", "block", "random"),
+         explicit_links=False):
     nblocks = draw(st.integers(min_blocks, 3))
     names = RESNAMES[:nblocks]
     blocks = []
@@ -407,9 +420,20 @@ def case(draw, with_links=True, max_res=8, mixed_nrexcl=False, routes=("json", "
                                       min_res=min_res, name_modes=name_modes))
     prefer = sorted({n["resname"] for n in graph["nodes"]}) if link_bias else None
     if with_links:
+        atype_replace = allow_replace and draw(st.integers(0, 2)) == 0
         for _ in range(draw(st.integers(1 if link_bias else 0, 4))):
             links.append(draw(link(blocks, label_pool, allow_replace=allow_replace, prefer=prefer,
-                                   bonded_only=bonded_only, nonbond_sections=nonbond)))
+                                   bonded_only=bonded_only, nonbond_sections=nonbond,
+                                   atype_replace=atype_replace)))
+        if atype_replace:
+            # selection by type is what makes a type replacement observable for later links
+            for lnk in links:
+                for at in lnk["atoms"]:
+                    if "atype" not in at["attrs"] and "replace" not in at["attrs"] and draw(st.integers(0, 4)) == 0:
+                        order, base = model_split_key(at["key"])
+                        cands = [a["type"] for b in blocks for a in b["atoms"] if a["name"] == base]
+                        if cands:
+                            at["attrs"] = dict(at["attrs"], atype=draw(st.sampled_from(cands)))
     # dangling interactions in itp blocks
     if allow_dangling:
         for blk in blocks:
@@ -447,8 +471,31 @@ def case(draw, with_links=True, max_res=8, mixed_nrexcl=False, routes=("json", "
     for i in itp_blocks:
         files.append({"kind": "itp", "blocks": [i], "links": [], "mods": []})
     files = list(draw(st.permutations(files)))
+    explicit = []
+    if explicit_links and route == "json" and draw(st.integers(0, 1)) == 0:
+        # links that name atoms by their number in the final molecule ([ molmeta ] by_atom_id true):
+        # a bond between atoms of two residues that are not neighbours in the residue graph, so that no
+        # other definition can own the same atom pair
+        by_name = {b["name"]: b for b in blocks}
+        nodes = sorted(graph["nodes"], key=lambda nd: nd["resid"])
+        first, count = {}, 1
+        for nd in nodes:
+            first[nd["id"]] = count
+            count += len(by_name[nd["resname"]]["atoms"])
+        adjacent = {frozenset((u, v)) for u, v, _ in graph["edges"]}
+        far = [(a["id"], b["id"]) for i, a in enumerate(nodes) for b in nodes[i + 1:]
+               if frozenset((a["id"], b["id"])) not in adjacent]
+        has_removal = any(at["attrs"].get("replace", {}).get("atomname", 0) is None for l in links for at in l["atoms"])
+        if far and not has_removal:
+            for (u, v) in draw(st.lists(st.sampled_from(far), min_size=1, max_size=2, unique=True)):
+                nu = len(by_name[[n for n in nodes if n["id"] == u][0]["resname"]]["atoms"])
+                nv = len(by_name[[n for n in nodes if n["id"] == v][0]["resname"]]["atoms"])
+                a = first[u] + draw(st.integers(0, nu - 1))
+                b = first[v] + draw(st.integers(0, nv - 1))
+                pair = [a, b] if draw(st.booleans()) else [b, a]
+                explicit.append({"sec": "bonds", "atoms": pair, "params": ["1", _param(draw), _param(draw)]})
     return {"rng": draw(st.integers(0, 2**31 - 1)), "name": "mol", "blocks": blocks, "links": links,
-            "mods": [], "files": files, "graph": graph, "route": route, "mods_cli": []}
+            "mods": [], "files": files, "graph": graph, "route": route, "mods_cli": [], "explicit": explicit}
 
 
 # ----------------------------------------------------------------------------
@@ -593,6 +640,14 @@ def write_inputs(spec, directory):
             text = "".join(render_itp_block(spec["blocks"][i]) + "\n" for i in fil["blocks"])
             path = directory / f"f{num}.itp"
         path.write_text(text)
+        inpaths.append(path)
+    if spec.get("explicit"):
+        lines = []
+        for it in spec["explicit"]:
+            lines += ["[ link ]", "[ molmeta ]", "by_atom_id true", f"[ {it['sec']} ]",
+                      " ".join([str(a) for a in it["atoms"]] + it["params"]), ""]
+        path = directory / "explicit.ff"
+        path.write_text("\n".join(lines) + "\n")
         inpaths.append(path)
     kwargs = {"name": spec.get("name", "mol"), "inpath": inpaths, "lib": None,
               "seq": None, "seq_file": None, "dsdna": bool(spec.get("dsdna", False)),
